@@ -21,12 +21,13 @@ pub struct GraphModel {
     pub panic_at: Option<u16>,
 }
 
-pub const NAMES: [&str; 6] = ["p0", "p1", "p2", "p3", "p4", "p5"];
+/// up to 72 properties: more than a machine word has bits (bit sets over property indices must not wrap)
+pub const NAMES: [&str; 72] = ["p0", "p1", "p2", "p3", "p4", "p5", "p6", "p7", "p8", "p9", "p10", "p11", "p12", "p13", "p14", "p15", "p16", "p17", "p18", "p19", "p20", "p21", "p22", "p23", "p24", "p25", "p26", "p27", "p28", "p29", "p30", "p31", "p32", "p33", "p34", "p35", "p36", "p37", "p38", "p39", "p40", "p41", "p42", "p43", "p44", "p45", "p46", "p47", "p48", "p49", "p50", "p51", "p52", "p53", "p54", "p55", "p56", "p57", "p58", "p59", "p60", "p61", "p62", "p63", "p64", "p65", "p66", "p67", "p68", "p69", "p70", "p71"];
 
 fn cond<const K: usize>(m: &GraphModel, s: &u16) -> bool {
     m.props[K].tbl[*s as usize]
 }
-const CONDS: [fn(&GraphModel, &u16) -> bool; 6] = [cond::<0>, cond::<1>, cond::<2>, cond::<3>, cond::<4>, cond::<5>];
+const CONDS: [fn(&GraphModel, &u16) -> bool; 72] = [cond::<0>, cond::<1>, cond::<2>, cond::<3>, cond::<4>, cond::<5>, cond::<6>, cond::<7>, cond::<8>, cond::<9>, cond::<10>, cond::<11>, cond::<12>, cond::<13>, cond::<14>, cond::<15>, cond::<16>, cond::<17>, cond::<18>, cond::<19>, cond::<20>, cond::<21>, cond::<22>, cond::<23>, cond::<24>, cond::<25>, cond::<26>, cond::<27>, cond::<28>, cond::<29>, cond::<30>, cond::<31>, cond::<32>, cond::<33>, cond::<34>, cond::<35>, cond::<36>, cond::<37>, cond::<38>, cond::<39>, cond::<40>, cond::<41>, cond::<42>, cond::<43>, cond::<44>, cond::<45>, cond::<46>, cond::<47>, cond::<48>, cond::<49>, cond::<50>, cond::<51>, cond::<52>, cond::<53>, cond::<54>, cond::<55>, cond::<56>, cond::<57>, cond::<58>, cond::<59>, cond::<60>, cond::<61>, cond::<62>, cond::<63>, cond::<64>, cond::<65>, cond::<66>, cond::<67>, cond::<68>, cond::<69>, cond::<70>, cond::<71>];
 
 impl Model for GraphModel {
     type State = u16;
